@@ -4,6 +4,9 @@
 #include <stdlib.h>
 #include <string.h>
 #include <stdint.h>
+#ifndef __CPROVER__
+#define __CPROVER_assume(c) ((void)0)
+#endif
 int verif_alloc_fail_at = -1;    /* index of the allocation that fails; <0: none */
 int verif_alloc_count = 0;       /* allocations attempted so far */
 size_t verif_alloc_max_request = 0;
@@ -13,12 +16,42 @@ static int verif_should_fail(size_t n) {
     verif_alloc_total += n;
     return verif_alloc_count++ == verif_alloc_fail_at;
 }
-void *verif_malloc(size_t n) { if(verif_should_fail(n)) return 0; return malloc(n); }
+/* With -DVERIF_ALLOC_ROUND (lifecycle harnesses: leaks / double frees, not bounds) requests are served from
+ * concrete size classes, because a heap object of SYMBOLIC size costs CBMC gigabytes. Requests above 256 octets
+ * are outside those harnesses (assumed away; the heap-bound harnesses of C15 do not use this mode). */
+#ifdef VERIF_ALLOC_ROUND
+static void *verif_raw(size_t n) {
+    if(n <= 8) return malloc(8);
+    if(n <= 16) return malloc(16);
+    if(n <= 32) return malloc(32);
+    if(n <= 64) return malloc(64);
+    if(n <= 128) return malloc(128);
+    __CPROVER_assume(n <= 256);
+    return malloc(256);
+}
+#else
+#define verif_raw(n) malloc(n)
+#endif
+void *verif_malloc(size_t n) { if(verif_should_fail(n)) return 0; return verif_raw(n); }
 void *verif_calloc(size_t a, size_t b) {
     if(verif_should_fail(a * b)) return 0;
-    void *p = malloc(a * b);
+    void *p = verif_raw(a * b);
     if(p) memset(p, 0, a * b);
     return p;
 }
-void *verif_realloc(void *p, size_t n) { if(verif_should_fail(n)) return 0; return realloc(p, n); }
+void *verif_realloc(void *p, size_t n) {
+    if(verif_should_fail(n)) return 0;
+#if defined(VERIF_ALLOC_ROUND) && defined(__CPROVER__)
+    char *q = (char *)verif_raw(n ? n : 1);
+    if(p) {
+        size_t old = __CPROVER_OBJECT_SIZE(p);
+        size_t m = old < n ? old : n;
+        for(size_t i = 0; i < m; i++) q[i] = ((char *)p)[i];
+        free(p);
+    }
+    return q;
+#else
+    return realloc(p, n);
+#endif
+}
 void verif_free(void *p) { free(p); }
